@@ -327,5 +327,182 @@ theorem roundUp_iff {W v s : Nat} (hs : 1 ≤ s) (hv : v ≠ 0) :
   · omega
 
 
+/-! ### integer → float -/
+
+theorem pow_split {a b : Nat} (h : b ≤ a) : 2 ^ a = 2 ^ b * 2 ^ (a - b) := by
+  rw [← Nat.pow_add]; congr 1; omega
+
+/-- the spec encoder on a value given as significand × power of two -/
+theorem encodeNat_eq {F : Spec.Fmt} (hp : 1 ≤ F.p) {r e m : Nat}
+    (h1 : 2 ^ (F.p - 1) ≤ m) (h2 : m < 2 ^ F.p)
+    (hr : r * 2 ^ (F.p - 1) = m * 2 ^ e) (he : e < F.emax) :
+    encodeNat F r = (e + F.emax - 1) * 2 ^ (F.p - 1) + (m - 2 ^ (F.p - 1)) := by
+  have hpos : 0 < 2 ^ (F.p - 1) := Nat.pow_pos (by decide)
+  have hepos : 0 < 2 ^ e := Nat.pow_pos (by decide)
+  have hlo : 2 ^ e ≤ r := by
+    have : 2 ^ e * 2 ^ (F.p - 1) ≤ r * 2 ^ (F.p - 1) := by
+      rw [hr, Nat.mul_comm]; exact Nat.mul_le_mul_right _ h1
+    exact Nat.le_of_mul_le_mul_right this hpos
+  have hhi : r < 2 ^ (e + 1) := by
+    have : r * 2 ^ (F.p - 1) < 2 ^ (e + 1) * 2 ^ (F.p - 1) := by
+      rw [hr, Nat.pow_succ]
+      calc m * 2 ^ e < 2 ^ F.p * 2 ^ e := Nat.mul_lt_mul_of_pos_right h2 hepos
+        _ = 2 ^ e * 2 * 2 ^ (F.p - 1) := by
+          rw [pow_split (show F.p - 1 ≤ F.p by omega), show F.p - (F.p - 1) = 1 by omega]; ring
+    exact Nat.lt_of_mul_lt_mul_right this
+  have hr0 : r ≠ 0 := by omega
+  have hlog : Nat.log2 r = e := (Nat.log2_eq_iff hr0).2 ⟨hlo, hhi⟩
+  have hfin : ¬ r ≥ 2 ^ F.emax := by
+    have : 2 ^ (e + 1) ≤ 2 ^ F.emax := Nat.pow_le_pow_right (by decide) (by omega)
+    omega
+  unfold encodeNat
+  simp only [hr0, hfin, if_false, hlog]
+  congr 2
+  split
+  · next hge =>
+    rw [pow_split hge, ← Nat.mul_assoc, Nat.mul_right_comm] at hr
+    have := Nat.eq_of_mul_eq_mul_right hpos hr
+    rw [this, Nat.mul_div_cancel _ (Nat.pow_pos (by decide))]
+  · next hlt =>
+    have hle : e ≤ F.p - 1 := by omega
+    rw [pow_split hle, Nat.mul_comm (2 ^ e), ← Nat.mul_assoc] at hr
+    exact Nat.eq_of_mul_eq_mul_right hepos hr
+
+theorem encodeNat_overflow {F : Spec.Fmt} {r : Nat} (h : 2 ^ F.emax ≤ r) : encodeNat F r = posInf F := by
+  have hr0 : r ≠ 0 := by have := Nat.pow_pos (n := F.emax) (show 0 < 2 by decide); omega
+  unfold encodeNat; simp [hr0, h]
+
+theorem infinity_eq {F : FloatFmt} (hF : F.Valid) : infinity F = posInf F.spec := by
+  obtain ⟨hp, hb, hx, hem⟩ := hF
+  unfold infinity posInf expBits FloatFmt.spec; simp only
+  rw [hem, ← Nat.pow_succ']; congr 3; omega
+
+theorem mantAdd_ok {F : FloatFmt} {dbg : Bool} {a b : Nat} (h : a + b < 2 ^ F.bits) :
+    mantAdd F dbg a b = .ok (a + b) := by simp [mantAdd, h]
+
+/-- the rounding block of `cast_float_from_uint` computes `rne` as significand × power of two -/
+theorem roundMantissa_spec {F : FloatFmt} (hF : F.Valid) (W : Nat) (dbg : Bool) {v : Nat} (hv : v ≠ 0) :
+    ∃ e m : Nat, roundMantissa F W dbg v (bitsOf v) ((bitsOf v - 1 : Nat) : Int) = .ok ((e : Int), m) ∧
+      2 ^ (F.p - 1) ≤ m ∧ m < 2 ^ F.p ∧ rne F.p v * 2 ^ (F.p - 1) = m * 2 ^ e ∧
+      (e = size v - 1 ∨ (e = size v ∧ m = 2 ^ (F.p - 1))) := by
+  obtain ⟨hp, hb, hx, hem⟩ := hF
+  rw [bitsOf_eq_size]
+  have hn := size_pos hv
+  have hlo := two_pow_size_le hv
+  have hhi := lt_two_pow_size v
+  have hpb : 2 ^ F.p < 2 ^ F.bits := Nat.pow_lt_pow_right (by decide) (by omega)
+  unfold roundMantissa
+  by_cases hs : size v ≤ F.p
+  · -- exact
+    simp only [hs, if_true]
+    have hvb : v < 2 ^ F.bits := by
+      have : 2 ^ size v ≤ 2 ^ F.p := Nat.pow_le_pow_right (by decide) hs
+      omega
+    have hm2 : v * 2 ^ (F.p - size v) < 2 ^ F.p := by
+      rw [pow_split hs]; exact Nat.mul_lt_mul_of_pos_right hhi (Nat.pow_pos (by decide))
+    have hm1 : 2 ^ (F.p - 1) ≤ v * 2 ^ (F.p - size v) := by
+      rw [pow_split (show size v - 1 ≤ F.p - 1 by omega), show F.p - 1 - (size v - 1) = F.p - size v by omega]
+      exact Nat.mul_le_mul_right _ hlo
+    refine ⟨size v - 1, v * 2 ^ (F.p - size v), ?_, hm1, hm2, ?_, Or.inl rfl⟩
+    · rw [Nat.mod_eq_of_lt hvb, Nat.shiftLeft_eq, Nat.mod_eq_of_lt (by omega)]
+    · rw [rne_exact hs, Nat.mul_assoc, ← Nat.pow_add]; congr 2; omega
+  · -- rounding
+    have hs' : F.p < size v := by omega
+    have hs1 : 1 ≤ size v - F.p := by omega
+    simp only [hs, if_false]
+    obtain ⟨hq1, hq2⟩ := rne_parts (show 1 ≤ F.p by omega) hs'
+    have hs0 : size v - F.p ≠ 0 := by omega
+    have hc := rne_cases (p := F.p) (v := v) rfl hs0
+    rw [Nat.shiftRight_eq_div_pow, Nat.mod_eq_of_lt (show v / 2 ^ (size v - F.p) < 2 ^ F.bits by omega),
+      ]
+    have hru := roundUp_iff (W := W) hs1 hv
+    have hexp : size v - 1 = (size v - F.p) + (F.p - 1) := by omega
+    by_cases hcond : (bit v (size v - F.p - 1) && (bit (v / 2 ^ (size v - F.p)) 0 ||
+        trailingZeros W v != size v - F.p - 1)) = true
+    · have hup := hru.1 hcond
+      have hr : rne F.p v = (v / 2 ^ (size v - F.p) + 1) * 2 ^ (size v - F.p) := by
+        rcases hc with ⟨_, h⟩ | ⟨h, _⟩
+        · omega
+        · exact h
+      rw [if_pos hcond, mantAdd_ok (by omega)]
+      simp only [bit]
+      by_cases hcarry : v / 2 ^ (size v - F.p) + 1 = 2 ^ F.p
+      · rw [hcarry]
+        simp only [Nat.testBit_two_pow_self, if_true]
+        refine ⟨size v, 2 ^ (F.p - 1), ?_, Nat.le_refl _, Nat.pow_lt_pow_right (by decide) (by omega), ?_,
+          Or.inr ⟨rfl, rfl⟩⟩
+        · rw [Nat.shiftRight_eq_div_pow, Nat.pow_one]
+          have : 2 ^ F.p / 2 = 2 ^ (F.p - 1) := by
+            rw [pow_split (show 1 ≤ F.p by omega)]; simp
+          rw [this]
+          have : (((size v - 1 : Nat) : Int) + 1) = ((size v : Nat) : Int) := by omega
+          rw [this]
+        · rw [hr, hcarry, ← Nat.pow_add, ← Nat.pow_add, ← Nat.pow_add]; congr 1; omega
+      · have hlt : v / 2 ^ (size v - F.p) + 1 < 2 ^ F.p := by omega
+        simp only [Nat.testBit_lt_two_pow hlt, Bool.false_eq_true, if_false]
+        refine ⟨size v - 1, _, rfl, by omega, hlt, ?_, Or.inl rfl⟩
+        rw [hr, hexp, Nat.pow_add, Nat.mul_assoc]
+    · have hup := fun h => hcond (hru.2 h)
+      have hr : rne F.p v = (v / 2 ^ (size v - F.p)) * 2 ^ (size v - F.p) := by
+        rcases hc with ⟨h, _⟩ | ⟨_, h⟩
+        · exact h
+        · exact absurd h hup
+      rw [if_neg hcond]
+      refine ⟨size v - 1, _, rfl, hq1, hq2, ?_, Or.inl rfl⟩
+      rw [hr, hexp, Nat.pow_add, Nat.mul_assoc]
+
+
+theorem emax_facts {F : FloatFmt} (hF : F.Valid) :
+    2 * F.emax = 2 ^ (F.bits - F.p) ∧ 4 ≤ F.emax ∧ F.emax ≤ 2 ^ 30 := by
+  obtain ⟨hp, hb, hx, hem⟩ := hF
+  refine ⟨?_, ?_, ?_⟩
+  · rw [hem, ← Nat.pow_succ']; congr 1; omega
+  · rw [hem]; calc 4 = 2 ^ 2 := rfl
+      _ ≤ _ := Nat.pow_le_pow_right (by decide) (by omega)
+  · rw [hem]; exact Nat.pow_le_pow_right (by decide) (by omega)
+
+/-- `cast_float_from_uint` returns the encoding of `rne p v` (+∞ on overflow) and never panics -/
+theorem castFloatFromUint_spec {F : FloatFmt} (hF : F.Valid) (W : Nat) (dbg : Bool) (v : Nat) :
+    castFloatFromUint F W dbg v = .ok (natToFloat F.spec v) := by
+  obtain ⟨hem2, hem4, hem30⟩ := emax_facts hF
+  have hp1 : 1 ≤ F.p := by have := hF.hp; omega
+  unfold castFloatFromUint natToFloat
+  by_cases hv : v = 0
+  · subst hv; simp [bitsOf, zero, rne, size, encodeNat]
+  · have hb0 : bitsOf v ≠ 0 := by rw [bitsOf_eq_size]; have := size_pos hv; omega
+    simp only [hb0, if_false]
+    obtain ⟨hlo, hhi⟩ := rne_bounds (p := F.p) hp1 hv
+    by_cases hbig : F.emax ≤ size v - 1
+    · -- overflow
+      have hinf : encodeNat F.spec (rne F.spec.p v) = infinity F := by
+        rw [infinity_eq hF]; apply encodeNat_overflow
+        have : 2 ^ F.emax ≤ 2 ^ (size v - 1) := Nat.pow_le_pow_right (by decide) hbig
+        exact Nat.le_trans this hlo
+      rw [hinf, bitsOf_eq_size]
+      by_cases h31 : 2 ^ 31 ≤ size v - 1
+      · rw [if_pos h31]
+      · have : ((size v - 1 : Nat) : Int) ≥ (F.emax : Int) := by omega
+        rw [if_neg h31, if_pos this]
+    · have h31 : ¬ 2 ^ 31 ≤ bitsOf v - 1 := by rw [bitsOf_eq_size]; omega
+      have hlt : ¬ ((bitsOf v - 1 : Nat) : Int) ≥ (F.emax : Int) := by rw [bitsOf_eq_size]; omega
+      simp only [h31, hlt, if_false]
+      obtain ⟨e, m, hrm, hm1, hm2, hval, hcase⟩ := roundMantissa_spec hF W dbg hv
+      rw [hrm]; simp only
+      have he : e ≤ F.emax := by omega
+      rw [fromSignedParts_eq hF dbg he hm1 hm2]
+      congr 1
+      by_cases hlt' : e < F.emax
+      · exact (encodeNat_eq (F := F.spec) hp1 hm1 hm2 hval hlt').symm
+      · have hee : e = F.emax := by omega
+        have hmm : m = 2 ^ (F.p - 1) := by omega
+        subst hmm
+        rw [Nat.mul_comm (2 ^ (F.p - 1))] at hval
+        have hr := Nat.eq_of_mul_eq_mul_right (Nat.pow_pos (by decide)) hval
+        have : encodeNat F.spec (rne F.spec.p v) = posInf F.spec := by
+          apply encodeNat_overflow; show 2 ^ F.emax ≤ rne F.p v; rw [hr, hee]
+        rw [this, hee]; unfold posInf FloatFmt.spec; simp only
+        rw [Nat.sub_self, Nat.add_zero]; congr 1; omega
+
+
 end Flt
 end Bnum
